@@ -6,6 +6,7 @@ import (
 	"pgregory.net/rapid"
 
 	"verif/lib/ev"
+	"verif/lib/sched"
 )
 
 // C02: Put/Delete/lookup implement a set keyed by the comparator.
@@ -17,6 +18,7 @@ import (
 func TestC02(t *testing.T) {
 	st := ev.Get("C02", "TestC02")
 	rapid.Check(t, func(t *rapid.T) {
+		sched.SeedRand(t)
 		cfg := genCfg(t, -1, false)
 		w := NewWorld(t, cfg, st)
 		defer w.Teardown()
